@@ -17,7 +17,7 @@ Definition trans_ok (s : state) (a : action) (p p' : pc) : Prop :=
                    \/ (exists a0, p' = Waiting i a0 /\ tlookup i (tbl s) = Some a0)
                    \/ p' = Panicked)
   | ALockRefused _ => p = Idle /\ p' = Idle
-  | ACtxDone _ => p' = p /\ exists i a0, p = Waiting i a0
+  | ACtxDone _ => p' = p
   | ARecv _ => exists i a0, p = Waiting i a0 /\ (p' = Holding i \/ p' = Releasing i)
   | ACancelChosen _ => exists i a0, p = Waiting i a0 /\ p' = Cancelling i a0
   | ACancelCommit _ => exists i a0, p = Cancelling i a0 /\ (p' = Idle \/ p' = Panicked)
@@ -37,7 +37,8 @@ Proof.
   intros Hs.
   destruct a; cbn [step act_tid] in *; unfold unlock_cs, set_th, acquired in *;
     repeat (dm Hs; try discriminate); inversion Hs; subst; clear Hs; cbn [ths];
-    eexists; eexists; (split; [reflexivity|]); (split; [reflexivity|]);
+    eexists; eexists; (split; [reflexivity|]);
+    (split; [first [reflexivity | symmetry; apply upd_same; eassumption]|]);
     cbn [trans_ok tpc with_pc mk_idle]; eauto 12.
 Qed.
 
@@ -104,7 +105,7 @@ Theorem count_inv k s :
   reachable k s ->
   forall i,
     match tlookup i (tbl s) with
-    | Some a => exists o, nth_error (heap s) a = Some o
+    | Some a => exists o, hget a (heap s) = Some o
                           /\ ln o = count (is_holder i) s + count (is_waiter i) s + count (is_canceller i) s
                           /\ 1 <= ln o
     | None => count (is_holder i) s = 0 /\ count (is_waiter i) s = 0 /\ count (is_canceller i) s = 0
@@ -125,7 +126,7 @@ Proof. intros Hr. exact (inv_ptr (reachable_inv _ _ Hr)). Qed.
 (** * 4. The hand-off token *)
 Theorem token_xor_holder k s :
   reachable k s ->
-  forall i a o, tlookup i (tbl s) = Some a -> nth_error (heap s) a = Some o ->
+  forall i a o, tlookup i (tbl s) = Some a -> hget a (heap s) = Some o ->
     (ltok o = 0 /\ count (is_holder i) s = 1) \/ (ltok o = 1 /\ count (is_holder i) s = 0).
 Proof.
   intros Hr i a o Hl Hh. pose proof (inv_entry (reachable_inv _ _ Hr) i) as He. unfold entry_inv in He.
@@ -137,7 +138,7 @@ Qed.
 (* tokens available to the waiters of i *)
 Definition tokc (i : cid) (s : state) : Z :=
   match tlookup i (tbl s) with
-  | Some a => match nth_error (heap s) a with Some o => ltok o | None => 0 end
+  | Some a => match hget a (heap s) with Some o => ltok o | None => 0 end
   | None => 0
   end.
 
